@@ -7,7 +7,7 @@ LEVEL = "other"
 
 def run(ctx):
     R = ctx.report
-    R.explanation = ("TAB: the decoder's code tables (message info, header type, type info incl. reserved bits, control id) against the bit layout of the DLT PRS; WIRE: the writer's layout per shape equals the layout transcribed from the DLT PRS (independent of the parser); CONST-1: every layout constant and width discriminant equals the value transcribed from the DLT PRS; ORD-1: byte order of every numeric "
+    R.explanation = ("WIRE-PA: every field of a verbose argument is read by the parser at the offset, width and byte-order class the PRS prescribes for its shape (38 shapes), and the next argument starts where the layout ends; TAB: the decoder's code tables (message info, header type, type info incl. reserved bits, control id) against the bit layout of the DLT PRS; WIRE: the writer's layout per shape equals the layout transcribed from the DLT PRS (independent of the parser); CONST-1: every layout constant and width discriminant equals the value transcribed from the DLT PRS; ORD-1: byte order of every numeric "
                      "field reference is the spec's (BE headers, LE storage header, message order in payload).")
     R.not_decided = ["verdict equivalence with a reference decoder over all byte strings (needs running both or a full semantic model of nom)"]
     lib_const.check(ctx, rule="CONST-1")
@@ -18,6 +18,8 @@ def run(ctx):
     wire_and_consumption(ctx, cons=False)
     from rules.C01 import code_tables
     code_tables(ctx)
-    from rules import lib_wirep
+    from rules import lib_wirep, lib_wirepa
+    lib_wirepa.check(ctx, "WIRE-PA")
+    R.floor("WIRE-PA", 20)
     lib_wirep.check_all(ctx, "WIRE-PH")
     R.floor("WIRE-PH", 3)
